@@ -455,6 +455,76 @@ def handle (sess : Sess) (rep : Report) (ln : Nat) (toks : List String) (obs : S
         ({ sess with model := none, mon := mon },
          if sess.model.isSome then { rep.msg s!"DIVERGE line={ln} model={shown.take 400} impl={obs.take 400}" with diverged := rep.diverged + 1 } else rep)
     | _, _ => (sess, rep.msg s!"BAD line={ln}")
+  | "donepark" :: rest =>
+    -- a deadline-exceeded completion (a) that has decided to refresh is stopped in front of the balancer lock while
+    -- another one (b) completes, the replacement (if exactly one refresh is in flight) reports READY and takes over,
+    -- and a third one (c) completes; then a continues. The outcome must be that of the three sequential steps with
+    -- a's completion, as one atomic step, somewhere among them (C07: the stale decision must not refresh again)
+    if !sess.active then (sess, rep.bump "pool.skipped_after_divergence") else
+    let a := args rest
+    match (arg a "a").toNat?, (arg a "b").toNat?, (arg a "c").toNat? with
+    | some ca, some cb, some cc =>
+      if obs == "bad-op" then (sess, rep.bump "pool.donepark_not_run") else
+      let mk (c : Nat) : Op := .done c .deClient { key := "", keys := [] }
+      let rep := rep.bump "pool.stale_refresh_decision_across_refresh_swap_and_count"
+      -- the steps other than a's completion; `none` stands for the READY report, whose connection is only known then
+      let mids : List (Option Op) := [some (mk cb), none, some (mk cc)]
+      let seqAt (p : Nat) : List (Option Op) := mids.take p ++ [some (mk ca)] ++ mids.drop p
+      let runSeq (l : List (Option Op)) : Option (St × List (Op × List String × St) × String) :=
+        match sess.model with
+        | none => none
+        | some s =>
+          let (s, acc) := l.foldl (fun (st : St × List (Op × List String × St)) (o : Option Op) =>
+            let (s, acc) := st
+            let op? : Option Op := match o with
+              | some op => some op
+              | none => match s.refreshingMap with
+                | [(sc, _)] => some (.scs sc .ready (orderOf obs))
+                | _ => none
+            match op? with
+            | none => (s, acc)
+            | some op =>
+              let (s', e) := step s op
+              (s', acc ++ [(op, e.map evStr, s')])) (s, [])
+          let evs := acc.flatMap fun (_, e, _) => e.filter (· != "ok")
+          some (s, acc, " ; ".intercalate (evs ++ ["ok", digest s]))
+      let tries := [0, 1, 2, 3].filterMap fun p => runSeq (seqAt p)
+      match tries.find? (fun (_, _, line) => line == obs) with
+      | some (s', acc, _) =>
+        let n := acc.length
+        let (mon, rep, _) := acc.foldl (fun (st : MonState × Report × Nat) (x : Op × List String × St) =>
+          let (mon, rep, i) := st
+          let (op, evs, si) := x
+          let view := if i + 1 == n then parseDigest obs else parseDigest (digest si)
+          let (mon, fails, hits) := mon.observe op evs view
+          let rep := fails.foldl (fun rep (p, c) =>
+            { rep.msg s!"MONITOR property={p} clause={c} line={ln}" with monitorFails := rep.monitorFails + 1 }) rep
+          (mon, hits.foldl (fun rep h => rep.bump h) rep, i + 1)) (sess.mon, rep, 0)
+        ({ sess with model := some s', mon := mon }, rep)
+      | none =>
+        -- no position explains it: the monitors see b, the report, c, and then a with whatever is left of the events
+        let parts := obs.splitOn " ; "
+        let evs := parts.filter fun e => !(e.startsWith "dg ") && e != "ok"
+        let base := runSeq mids
+        let (mon, rep, used) : MonState × Report × Nat := match base with
+          | some (_, acc, _) =>
+            acc.foldl (fun (st : MonState × Report × Nat) (x : Op × List String × St) =>
+              let (mon, rep, used) := st
+              let (op, e, si) := x
+              let mine := e.filter (· != "ok")
+              let (mon, fails, hits) := mon.observe op (mine ++ ["ok"]) (parseDigest (digest si))
+              let rep : Report := fails.foldl (fun (rep : Report) (p, c) =>
+                { rep.msg s!"MONITOR property={p} clause={c} line={ln}" with monitorFails := rep.monitorFails + 1 }) rep
+              (mon, hits.foldl (fun (rep : Report) h => rep.bump h) rep, used + mine.length)) (sess.mon, rep, 0)
+          | none => (sess.mon, rep, 0)
+        let (mon, fails, hits) := mon.observe (mk ca) (evs.drop used ++ ["ok"]) (parseDigest obs)
+        let rep := fails.foldl (fun rep (p, c) =>
+          { rep.msg s!"MONITOR property={p} clause={c} line={ln}" with monitorFails := rep.monitorFails + 1 }) rep
+        let rep := hits.foldl (fun rep h => rep.bump h) rep
+        let shown := match tries.head? with | some (_, _, line) => line | none => "(model lost)"
+        ({ sess with model := none, mon := mon },
+         if sess.model.isSome then { rep.msg s!"DIVERGE line={ln} model={shown.take 400} impl={obs.take 400}" with diverged := rep.diverged + 1 } else rep)
+    | _, _, _ => (sess, rep.msg s!"BAD line={ln}")
   | "scsdone" :: rest =>
     -- a deadline-exceeded completion decides about a refresh while the report that completes the previous
     -- refresh is being processed: the outcome must be that of one of the two sequential orders (C07: no
